@@ -1,6 +1,7 @@
 package main
 
 import (
+	"sort"
 	"fmt"
 	"go/types"
 	"strings"
@@ -467,4 +468,48 @@ func (fc *FnCtx) callResult(name string) (Val, bool) {
 		return Val{}, false
 	}
 	return fc.vals[best], true
+}
+
+// checkFrame: a declared frame (pure / modifies / writes) of a function under contract is verified
+// against the heaps its body (and, transitively, its callees' frames) may modify in pre-existing objects.
+func (fc *FnCtx) checkFrame() {
+	con := fc.con
+	if con == nil || !con.HasMod || con.Kind != "func" || fc.fn == nil {
+		return
+	}
+	declared := map[string]bool{}
+	for _, h := range con.Modifies {
+		declared[h] = true
+	}
+	for _, w := range con.Writes {
+		for _, p := range fc.fn.Params {
+			if p.Name() == w {
+				if sl, ok := p.Type().Underlying().(*types.Slice); ok {
+					addTypeHeaps("A."+typeName(sl.Elem()), sl.Elem(), declared)
+				}
+			}
+		}
+	}
+	var extra []string
+	for h := range fc.e.inferredMods(fc.fn) {
+		if !declared[h] {
+			extra = append(extra, h)
+		}
+	}
+	sort.Strings(extra)
+	save := fc.curReach
+	fc.curReach = "true"
+	cond := "true"
+	src := "declared frame: " + strings.Join(append(append([]string{}, con.Modifies...), con.Writes...), " ")
+	if len(extra) > 0 {
+		cond = "false"
+		src += "; the body may also modify " + strings.Join(extra, " ")
+	}
+	ob := &Obligation{Fn: fc.name, Name: fc.name + "#frame.modifies", Kind: "frame", Cond: cond, Guard: "true", Prefix: 0, Pos: fc.fn.Pos(), fc: fc, Src: src}
+	if cond == "false" {
+		ob.Status = "failed"
+		ob.Solver = "syntactic frame analysis"
+	}
+	fc.obls = append(fc.obls, ob)
+	fc.curReach = save
 }
